@@ -4,6 +4,8 @@
 //!   AST\t<i>\t<level>\t<coq term>          (level "in" = before optimisation)
 //!   RUN\t<i>\t<level>\t<class>\t<output>\t<value>\t<detail>
 //!   FRONT\t<i>\t<error>                    (front end rejected the program)
+//! With --passes dce,fold each named pass is also run ALONE on the input AST:
+//!   AST\t<i>\tpass:<name>\t<coq term>
 #[path = "../astdump.rs"]
 mod astdump;
 
@@ -21,6 +23,7 @@ fn main() {
     let levels: Vec<u32> = arg("--opts").unwrap_or("0,1,2,3".into()).split(',').filter_map(|s| s.parse().ok()).collect();
     let budget = arg_u64("--budget", 2_000_000);
     let do_run = !flag("--no-run");
+    let passes: Vec<String> = arg("--passes").map(|s| s.split(',').map(|x| x.to_string()).collect()).unwrap_or_default();
     let gc: (u8, u64) = (arg_u64("--gc-mode", 0) as u8, arg_u64("--gc-k", 0));
     let text = std::fs::read_to_string(&file).expect("read");
     let handle = std::thread::Builder::new().stack_size(256 << 20).spawn(move || {
@@ -42,6 +45,25 @@ fn main() {
                 Err(p) => { println!("FRONT\t{}\tpanic: {}", i, esc(&p)); continue; }
             };
             println!("AST\t{}\tin\t{}", i, astdump::program(&typed));
+            for name in &passes {
+                let t = typed.clone();
+                let nm = name.clone();
+                let o = guarded(std::panic::AssertUnwindSafe(move || {
+                    use aelys_opt::OptimizationPass;
+                    let mut t = t;
+                    match nm.as_str() {
+                        "dce" => { aelys_opt::DeadCodeEliminator::new().run(&mut t); }
+                        "fold" => { aelys_opt::ConstantFolder::new().run(&mut t); }
+                        "globalprop" => { aelys_opt::GlobalConstantPropagator::new().run(&mut t); }
+                        _ => {}
+                    }
+                    t
+                }));
+                match o {
+                    Ok(t2) => println!("AST\t{}\tpass:{}\t{}", i, name, astdump::program(&t2)),
+                    Err(p) => println!("AST\t{}\tpass:{}\tPANIC {}", i, name, esc(&p)),
+                }
+            }
             for &l in &levels {
                 let t = typed.clone();
                 let o = guarded(std::panic::AssertUnwindSafe(move || {
